@@ -43,7 +43,9 @@ RULE = ('A case = (n items, entry point, pool size, result mode, failing subset,
         'becoming workers take queued tasks between a non-empty empty() answer and the following get(block=False) '
         '(more items than workers, failing item at every position, raise mode and the abandon caller pattern); '
         '(b) injected fault - ThreadWorker.start raises RuntimeError("can\'t start new thread") for the first / odd / '
-        'all-but-first / all workers. A case is non-trivial when the observed completion order differs from the '
+        'all-but-first / all workers; (c) held result - the pool result queue is a queue.Queue subclass that holds back '
+        'the put() of a generated item (bounded) when the worker has already called task_done() for it. A case is '
+        'non-trivial when the observed completion order differs from the '
         'input order, or a failing item is not the last one to complete; distinct = distinct case descriptions.')
 ASSUMPTIONS = [
     'a fresh pool per fan-out (what every in-tree caller does); reuse of a pool after a raise is not explored',
@@ -60,6 +62,7 @@ QUIET = float(os.environ.get('VERIF_C15_QUIET', '0.0004'))
 # fault-injected cases (no worker can be started): nothing but a handful of thread switches is needed to
 # terminate, so a hang surfaces after a much shorter watchdog
 FAULT_WATCHDOG = float(os.environ.get('VERIF_C15_FAULT_WATCHDOG', str(min(WATCHDOG, 8.0))))
+HOLD_WAIT = 0.3  # upper bound for holding back a worker's result_queue.put (coverage only)
 RACE_WAIT = 0.25  # upper bound for letting the workers through inside a pre-empted empty() (coverage only)
 
 SIG_SEQ_RAISE = 'C15/sequential/raise-mode/exc_info-yielded-as-value'
@@ -137,6 +140,12 @@ class Run(object):
         self.injected = []
         self.fault_started = []
         self.leftover = False
+        # held result put (case['hold'] = item index)
+        self.puts = {}
+        self.done_calls = {}
+        self.consumer_in_get = False
+        self.hold_used = False
+        self.hold_window = False
 
     def bump(self):
         with self.cond:
@@ -239,6 +248,47 @@ class Run(object):
         while q.qsize() > goal and time.monotonic() < deadline:
             time.sleep(0.0002)
         self.race_drained = q.qsize() == 0
+
+
+class HoldQueue(_queue.Queue):
+    """The pool's result queue in hold cases.  The put() of the generated item is held back - like a worker
+    pre-empted right before it - but only if the worker already reported the task as done to the task queue
+    (task_done() before put(): the window in which task_queue.join() can return while the result is not
+    visible yet).  The hold ends when the consumer finished, when the consumer is blocked in get() on the
+    empty queue (it waits for exactly this result) or after HOLD_WAIT; then the real put happens.  With
+    task_done() after put() - the order in the tree - there is no such window and nothing is held."""
+
+    def __init__(self, R):
+        _queue.Queue.__init__(self)
+        self._c15_run = R
+
+    def get(self, block=True, timeout=None):
+        R = self._c15_run
+        if threading.get_ident() != R.consumer_ident:
+            return _queue.Queue.get(self, block, timeout)
+        R.consumer_in_get = True
+        try:
+            return _queue.Queue.get(self, block, timeout)
+        finally:
+            R.consumer_in_get = False
+
+    def put(self, item, block=True, timeout=None):
+        R = self._c15_run
+        tid = threading.get_ident()
+        if tid != R.consumer_ident and isinstance(item, tuple) and len(item) == 2:
+            R.puts[tid] = R.puts.get(tid, 0) + 1
+            if item[0] == R.case['hold'] and not R.hold_used:
+                R.hold_used = True
+                if R.done_calls.get(tid, 0) >= R.puts[tid]:
+                    R.hold_window = True
+                    deadline = time.monotonic() + HOLD_WAIT
+                    waiting = 0
+                    while time.monotonic() < deadline and not R.consumer_done.is_set():
+                        waiting = waiting + 1 if (R.consumer_in_get and self.qsize() == 0) else 0
+                        if waiting >= 3:
+                            break
+                        time.sleep(0.0005)
+        return _queue.Queue.put(self, item, block, timeout)
 
 
 class RaceQueue(_queue.Queue):
@@ -381,6 +431,16 @@ class traced_pools(object):
                             R.forced_done = True
                             R.bump()
                 pool_self.shutdown = shutdown
+            if R.case.get('hold') is not None and not isinstance(pool_self.result_queue, HoldQueue):
+                pool_self.result_queue = HoldQueue(R)
+                tq = pool_self.task_queue
+                orig_task_done = tq.task_done
+
+                def task_done():
+                    tid = threading.get_ident()
+                    R.done_calls[tid] = R.done_calls.get(tid, 0) + 1
+                    return orig_task_done()
+                tq.task_done = task_done
             q = pool_self.task_queue
             if not getattr(q, '_c15_traced', False):
                 orig_join = q.join
@@ -694,6 +754,8 @@ def signature(R, symptom):
         return 'C15/worker-start-failure/%s' % symptom
     if case.get('race') and R.race_preempted:
         return 'C15/forced-shutdown-race/%s' % symptom
+    if R.hold_window:
+        return 'C15/result-put-held-after-task_done/%s' % symptom
     return 'C15/%s/%s' % (path_of(R), symptom)
 
 
@@ -738,6 +800,9 @@ def run_case(case, stats, ses):
                                   else 'no-forced-shutdown-with-queued-tasks'))
         if R.race_drained:
             classes.append('race:queue-emptied-between-empty()-and-get()')
+    if case.get('hold') is not None:
+        classes.append('hold:' + ('put-held-in-window-after-task_done' if R.hold_window
+                                  else 'no-window(task_done-after-put)' if R.hold_used else 'item-result-never-put'))
     if case.get('fault'):
         classes.append('fault:' + case['fault'])
         started = len(R.fault_started)
@@ -903,6 +968,7 @@ def enum_special(top_n):
     """the two harness-owned extras (eager consumer):
     race  - more items than workers, one failing item, forced shutdown (raise mode: inside the pool; abandon
             mode: the in-tree caller pattern) with a worker let through between empty() and get(block=False);
+    hold  - the result_queue.put of one generated item is held back if it comes after the task's task_done();
     fault - ThreadWorker.start fails for a generated subset of the workers."""
     for n in range(3, top_n + 2):
         for size in range(2, n):
@@ -929,6 +995,21 @@ def enum_special(top_n):
                                     yield {'n': n, 'entry': entry, 'pool': psize, 'mode': mode, 'fail': [f],
                                            'actions': acts, 'pattern': 'eager',
                                            'perm': perm, 'race': {'at': at, 'release': how, 'sync': 1}}
+    for n in range(2, min(top_n, 4) + 1):
+        for size in range(2, n + 2):
+            for h in range(n):
+                perms = [p_ for p_ in itertools.permutations(range(n))
+                         if n <= 3 or p_[-1] == h or (p_[0] == h and list(p_[1:]) == sorted(p_[1:]))]
+                fails = [[], [h]] + [[(h + 1) % n]] + ([[0, n - 1]] if n > 2 else [])
+                for perm in perms:
+                    for fail in fails:
+                        for entry, mode in (('imap', 'raise'), ('imap', 'objects'), ('imap', 'abandon'),
+                                            ('starcall2', 'objects'), ('map', 'raise')):
+                            if mode == 'abandon' and not fail:
+                                continue
+                            yield {'n': n, 'entry': entry, 'pool': size, 'mode': mode, 'fail': fail,
+                                   'actions': build_actions('eager', perm), 'pattern': 'eager',
+                                   'perm': list(perm), 'hold': h}
     for n in (2, 3):
         subsets = [list(s_) for k in range(n + 1) for s_ in itertools.combinations(range(n), k)]
         for size in range(2, n + 2):
@@ -1040,6 +1121,13 @@ def random_cases(draw, sizes):
         if size is not None:
             case['pool'] = max(2, size)
         case['fault'] = draw(st.sampled_from(FAULTS))
+    elif extra in (4, 5):
+        # a worker held back right before result_queue.put of one item (last released / a failing one / any)
+        if size is not None:
+            case['pool'] = max(2, size)
+        pick = draw(st.sampled_from(['last', 'fail', 'any']))
+        case['hold'] = (perm[-1] if pick == 'last' else fail[0] if pick == 'fail' and fail
+                        else draw(st.integers(0, n - 1)))
     return case
 
 
@@ -1082,7 +1170,10 @@ def run(tier, seed, stats):
         'with Pool.imap under all consume patterns and the other entry points under the eager consumer; plus, for '
         'n = 3..%d, pool size 2..n-1, every single failing item and every release prefix that leaves a task queued when '
         'the item fails: a worker let through between empty() and get(block=False) of the forced shutdown (1st/2nd '
-        'check x release all/first/last running item; raise and abandon modes); plus, for n = 2..3, worker-start failure (first/odd/all-but-first/all) x pool sizes 2..n+1 x '
+        'check x release all/first/last running item; raise and abandon modes); plus, for n = 2..4, pool sizes 2..n+1, every held item x {no, the held, another, first+last} '
+        'failing items x 3 modes (all permutations for n <= 3; n = 4: the held item released last after every order of the others, or first): the '
+        'result_queue.put of the item is held back if the worker already called task_done(); plus, for n = 2..3, '
+        'worker-start failure (first/odd/all-but-first/all) x pool sizes 2..n+1 x '
         'every failing subset x 3 modes; minus the constructs of open findings (excluded_by_construction)'
         % (full_n, len(ENTRIES_POOL), len(ENTRIES_MOD), '/'.join(PATTERNS), top_n, top_n + 1))
     stats.extra['exhaustive_cases_executed'] = ex.evaluations
